@@ -475,6 +475,7 @@ type Contract struct {
 	CallSites []CallSiteSpec
 	CutAfter  string
 	Inline    bool
+	Inlines   map[string]bool // callees whose real body is used in this function although they carry a contract
 	NoFrame   bool // the frame (modifies) of this function is assumed, not checked (listed as an assumption)
 	Trusted   bool
 	Pure      bool // no heap effects at all; result is a function of arguments and read heap
@@ -571,7 +572,7 @@ var clauseKeywords = map[string]bool{
 	"pred": true, "ghost": true, "axiom": true, "func": true, "requires": true, "ensures": true,
 	"modifies": true, "loop": true, "invariant": true, "inline": true, "trusted": true, "bounded": true,
 	"interface": true, "global": true, "assume": true, "trustedensures": true, "lemma": true, "panics": true, "pure": true,
-	"method": true, "end": true, "results": true, "unroll": true, "envassume": true, "noframe": true, "sealed": true, "callsite": true, "cutafter": true,
+	"method": true, "end": true, "results": true, "unroll": true, "envassume": true, "noframe": true, "sealed": true, "callsite": true, "cutafter": true, "inlines": true,
 }
 
 // ParseContractText parses the //@ lines of a contract file.
@@ -816,6 +817,16 @@ func (ss *SpecSet) ParseContractText(pkgPath, file, text string) error {
 			cur.CutAfter = rest
 		case "inline":
 			cur.Inline = true
+		case "inlines":
+			// inlines f, g: inside this function the listed callees are executed from their real bodies, not used through their contracts
+			if cur.Inlines == nil {
+				cur.Inlines = map[string]bool{}
+			}
+			for _, c := range strings.Split(rest, ",") {
+				if c = strings.TrimSpace(c); c != "" {
+					cur.Inlines[c] = true
+				}
+			}
 		case "noframe":
 			cur.NoFrame = true
 		case "trusted":
